@@ -17,6 +17,8 @@ for sid in ids:
         print(sid, "PATCH DOES NOT APPLY")
         continue
     res = {}
+    ev_path = os.path.join("/verif/evidence", prop + ".json")
+    ev_saved = open(ev_path).read() if os.path.exists(ev_path) else None   # evidence belongs to the unchanged tree
     try:
         for tier in ("quick", "thorough"):
             p = subprocess.run(["./check", prop, "--tier", tier], cwd="/verif", capture_output=True, text=True)
@@ -30,6 +32,8 @@ for sid in ids:
                 break
     finally:
         subprocess.run(["git", "-C", "/repo", "checkout", "--", "."])
+        if ev_saved is not None:
+            open(ev_path, "w").write(ev_saved)
     det = any(v["exit"] == 1 for v in res.values())
     with_input = any(v["exit"] == 1 and v["violation_line"] and "no-failing-input-found" not in v["violation_line"] for v in res.values())
     meta["detection"] = {"check": f"./check {prop}", "detected": det, "with_failing_input": with_input, "runs": res,
